@@ -77,3 +77,29 @@ contract(TB, 'TypeBlocks._assign_from_boolean_blocks_by_blocks',
 # Frame.bloc[...] extraction: the Boolean key is cut per block by the running offset, coordinates are reported relative to it
 offset_contract('TypeBlocks.extract_bloc', ['C04', 'C03'], 't_start', 't_end', ['target = bloc_key[NULL_SLICE, target_slice]'], n_loops=3, generator=False,
                 extra_loops={1: dict(index='u', locals={}, invariant=[]), 2: dict(index='u', locals={}, invariant=[])}, raises={'Exception': 'maybe'})
+
+# C15: axis reductions over a multi-block store write the per-block result into one output vector `out`; for axis 0 the running position `pos` decides
+# which columns of the output a block's reduction lands in.  Contract (offset discipline): at the head of the iteration for block t, pos is the first
+# column of block t; each of the three writes addresses exactly the columns of block t (a 1-D block and a block of size one are one column wide).
+contract(TB, 'TypeBlocks.unified', property=True,
+    props=['C15', 'C03'],
+    params=dict(self='TypeBlocks'), order=['self'], result='bool',
+    ensures=['result == (len(self._blocks) <= 1)'])
+
+_AT_USE = 'assert axis == 0 and pos == at(self._offs, t) and end == at(self._offs, t + 1)'
+contract(TB, 'TypeBlocks.ufunc_axis_skipna',
+    props=['C15', 'C03'],
+    params=dict(self='TypeBlocks', axis='int', skipna='bool', composable='bool', size_one_unity='bool', dtypes='list[dtype]'),
+    order=['self'],
+    lenient=True, lenient_protect=['pos', 'end', 'axis'],
+    requires=['Dir(self)', 'RowDtypeHolds(self)'],
+    raises={'RuntimeError': 'axis < 0 or axis > 1', 'Exception': 'maybe'},
+    # ASSUMED (NumPy): astype returns a new array of the same shape
+    calls={'ndarray.astype': dict(assumed=True, params=dict(dtype='dtype'), order=['dtype'], result='arr',
+                                  ensures=['result.ndim == recv_.ndim', 'result.rows == recv_.rows', 'result.cols == recv_.cols', 'result.dtype == dtype', 'result.writeable', 'result.fresh'])},
+    n_loops=2,
+    loops={0: dict(index='u', locals={}, invariant=[]),          # the dtype preference loop: no offset state
+           1: dict(index='t', locals=dict(pos='int'), invariant=['implies(axis == 0, pos == at(self._offs, t))'])},
+    ghost_after={'out[pos] = b': [_AT_USE],
+                 'out[pos] = func(array=b, axis=axis)': [_AT_USE],
+                 'func(array=b, axis=axis, out=out[pos:end])': [_AT_USE]})
